@@ -372,15 +372,20 @@ def _conjuncts(g):
 SPLIT_AT = 8        # goals with at least this many top-level conjuncts are discharged conjunct by conjunct
 
 
-def _solve_split(ob, parts, ext, budget_ms):
+def _solve_split(ob, parts, ext, budget_ms, sequential=False):
     """Prove a conjunction conjunct by conjunct (same assumptions).  Sound: the goal holds iff every conjunct
-    holds; a model refuting one conjunct refutes the goal."""
+    holds; a model refuting one conjunct refutes the goal.  sequential=True (contract option
+    'sequential_conjuncts'): conjuncts already proved are available as assumptions for the later ones
+    (A, then A ==> B, gives A and B), which lets an ensures clause be organised as a chain of lemmas."""
     total = 0.0
     backends = set()
+    proved = []
     for part in parts:
         if z3.is_true(part):
             continue
-        v, model, info = smt.solve(ob.pc, part, timeout_ms=budget_ms, extra_axioms=ext)
+        v, model, info = smt.solve(list(ob.pc) + proved, part, timeout_ms=budget_ms, extra_axioms=ext)
+        if sequential and v == Verdict.PROVED:
+            proved.append(part)
         total += info.get('s', 0)
         backends.add(info.get('backend') or '?')
         if v != Verdict.PROVED:
@@ -407,8 +412,9 @@ def discharge(c, ob, budget_ms):
     try:
         ext = ext_axioms(list(ob.pc) + [goal])
         parts = _conjuncts(goal)
-        if len(parts) >= SPLIT_AT:
-            verdict, model, info = _solve_split(ob, parts, ext, budget_ms)
+        seq = bool(getattr(c, 'opts', None) and c.opts.get('sequential_conjuncts'))
+        if len(parts) >= SPLIT_AT or (seq and len(parts) > 1):
+            verdict, model, info = _solve_split(ob, parts, ext, budget_ms, sequential=seq)
         else:
             verdict, model, info = smt.solve(ob.pc, goal, timeout_ms=budget_ms, extra_axioms=ext)
             if verdict == Verdict.UNDECIDED and len(parts) > 1:
